@@ -311,6 +311,46 @@ def check_assumptions(prop, allowed):
     return result
 
 
+def coqchk(prop):
+    """thorough tier: re-check the compiled property file and everything it depends on with the independent checker
+    coqchk; it must report no axiom beyond the standard-library ones Flocq brings in, nothing relying on type-in-type,
+    on unguarded fixpoints or on assumed positivity. Memoised by the hash of the .vo (which holds its dependencies' digests)."""
+    vo = os.path.join(COQ, "Props", prop + ".vo")
+    h = hashlib.sha1(open(vo, "rb").read()).hexdigest()[:16]
+    d = os.path.join(CACHE, "assum")
+    os.makedirs(d, exist_ok=True)
+    memo = os.path.join(d, "Chk_%s.%s.json" % (prop, h))
+    if os.path.exists(memo):
+        return json.load(open(memo))
+    rc, out = run(["timeout", "3000", "coqchk", "-o", "-silent", "-Q", ".", "RV", "RV.Props." + prop], cwd=COQ)
+    if rc != 0 or "CONTEXT SUMMARY" not in out:
+        raise Failure("coqchk rejects Props/%s.vo or one of its dependencies" % prop, out[-3000:])
+    summary = out[out.index("CONTEXT SUMMARY"):]
+    sect = {}
+    cur = None
+    for line in summary.splitlines():
+        t = line.strip()
+        if t.startswith("* "):
+            cur = t[2:].split(":")[0]
+            rest = t[2:].split(":", 1)[1].strip() if ":" in t else ""
+            sect[cur] = [rest] if rest and rest != "<none>" else []
+        elif t and cur and not t.startswith("="):
+            sect[cur].append(t)
+    axioms = [a for a in sect.get("Axioms", []) if a != "<none>"]
+    bad = [a for a in axioms if not any(a.endswith(x) for x in FLOCQ_AXIOMS)]
+    if bad:
+        raise Failure("coqchk: axioms outside the allowed standard-library set", ", ".join(bad))
+    for k in sect:
+        if ("type-in-type" in k or "unsafe" in k or "positivity" in k) and sect[k]:
+            raise Failure("coqchk: %s" % k, ", ".join(sect[k]))
+    res = {"coqchk_axioms_of_loaded_libraries": axioms, "coqchk": "ok"}
+    for old in os.listdir(d):
+        if old.startswith("Chk_%s." % prop):
+            os.remove(os.path.join(d, old))
+    json.dump(res, open(memo, "w"))
+    return res
+
+
 def prove(prop, allowed_axioms=()):
     """make Props/<prop>.vo (full build), hygiene gate, assumptions gate"""
     t0 = time.time()
@@ -346,6 +386,22 @@ def _groups(lines):
     return groups
 
 
+def _big_stack():
+    """the extracted model recurses on the system stack (long texts, deep lists): give it 4 GiB. Opt-in
+    (VDRIVER_BIG_STACK, set by the checks that feed long texts): with the default 8 MiB a computation the model
+    cannot finish - e.g. the unary index of (vector-ref v 2147483647) - ends at once as (model-stack-overflow),
+    which the comparisons treat as undecided, instead of running into the time limit"""
+    import resource
+    try:
+        soft, hard = resource.getrlimit(resource.RLIMIT_STACK)
+        want = 4 << 30
+        if hard != resource.RLIM_INFINITY:
+            want = min(want, hard)
+        resource.setrlimit(resource.RLIMIT_STACK, (want, hard))
+    except Exception:
+        pass
+
+
 def _run_groups(exe, lines, groups, timeout, env):
     """one process over the given groups; returns (rc, list of outputs or None)"""
     idx = [k for g in groups for k in g]
@@ -354,7 +410,8 @@ def _run_groups(exe, lines, groups, timeout, env):
         e.update(env)
     try:
         p = subprocess.run([exe], input=("\n".join(lines[k] for k in idx) + "\n").encode(),
-                           stdout=subprocess.PIPE, stderr=subprocess.PIPE, env=e, timeout=timeout)
+                           stdout=subprocess.PIPE, stderr=subprocess.PIPE, env=e, timeout=timeout,
+                           preexec_fn=_big_stack if (exe == DRIVER_EXE and os.environ.get("VDRIVER_BIG_STACK")) else None)
     except subprocess.TimeoutExpired:
         return -9, None
     res = p.stdout.decode("utf-8", "replace").split("\n")
@@ -405,8 +462,9 @@ def run_lines(exe, lines, timeout=600, shards=None, env=None):
         return []
     groups = _groups(lines)
     shards = shards or min(NCPU, max(1, n // 50))
-    per = (len(groups) + shards - 1) // shards
-    chunks = [groups[i:i + per] for i in range(0, len(groups), per)]
+    # round robin: expensive cases that a generator emits next to each other are spread over the processes
+    chunks = [groups[i::shards] for i in range(shards)]
+    chunks = [c for c in chunks if c]
     out = [None] * n
     import threading
     ths = [threading.Thread(target=_solve, args=(exe, lines, ch, timeout, env, out)) for ch in chunks]
@@ -520,6 +578,8 @@ def run_check(ctx, mod):
             try:
                 changed = sld2v()
                 proof = prove(prop, allowed)
+                if ctx.tier == "thorough":
+                    proof.update(coqchk(prop))
             except Failure as f:
                 ctx.broken.append(f)
             build_driver()
@@ -558,6 +618,9 @@ def run_check(ctx, mod):
         "broken_obligations": [f.what for f in ctx.broken],
         "known_class_hits": {k: v[0] for k, v in ctx.known_hits.items()},
     }
+    if proof and proof.get("coqchk"):
+        coverage["checker_cmd"] += "; coqchk -o -silent RV.Props.%s (independent re-check of the .vo and all it depends on)" % prop
+        coverage["coqchk_axioms_of_loaded_libraries"] = proof.get("coqchk_axioms_of_loaded_libraries", [])
     if coverage["obligations"] == 0:
         coverage["obligations"] = 1
     coverage.update(cov)
